@@ -107,9 +107,9 @@ type Campaign struct {
 	Enumerated bool
 	// Fresh: every run of the campaign executes in a fresh worker process (first-call-in-process
 	// behaviour: lazily initialised package state, cold caches and pools).
-	Fresh bool
-	Forced     func(tier string, seed uint64, idx uint64) map[string][]uint64
-	Run        func(c *Ctx)
+	Fresh  bool
+	Forced func(tier string, seed uint64, idx uint64) map[string][]uint64
+	Run    func(c *Ctx)
 }
 
 // Prop is one claimed property.
@@ -135,6 +135,9 @@ type Prop struct {
 	Workers int
 	// RunTimeoutSec: watchdog per run (0 = default 10).
 	RunTimeoutSec int
+	// SyncYields: the orchestrator builds the workers from an instrumented scratch copy of the
+	// repository in which synchronisation operations are scheduling points (sim/yieldinst).
+	SyncYields bool
 	Assumptions   []string
 	Components    map[string]string
 }
